@@ -50,7 +50,7 @@ def ops_from_behaviour(beh):
     return ops, model
 
 
-def random_ops(r, n, nf=3, nh=3, budget=300, weak=True, ovr=True, meta=True, writes=True):
+def random_ops(r, n, nf=3, nh=3, budget=300, weak=True, ovr=True, meta=True, writes=True, wd_p=0.35):
     """Random storage history over adversarial names; biased towards cache pressure."""
     sizes = [40, 100, 120, budget // 2 + 20, budget - 20, budget, budget + 1, budget * 2]
     ops = []
@@ -90,13 +90,47 @@ def random_ops(r, n, nf=3, nh=3, budget=300, weak=True, ovr=True, meta=True, wri
             ops.append({"op": "ListMementos", "f": f, "limit": r.choice([0, 0, 1, 2])})
         elif x < 0.93 and meta and writes and live:
             f, h = r.choice(sorted(live))
-            ops.append({"op": "WriteMetadata", "f": f, "h": h, "mk": r.randint(1, 2), "b": r.randint(1, 3)})
+            ops.append({"op": "WriteMetadata", "f": f, "h": h, "mk": r.randint(1, 2), "b": r.randint(1, 3),
+                        "wd": r.random() < wd_p})
         elif x < 0.97 and meta:
             ops.append({"op": "ReadMetadata", "f": f, "h": h, "mk": r.randint(1, 2)})
         elif weak:
             ops.append({"op": "Gc", "f": f, "h": h})
         else:
             ops.append({"op": "Reopen"})
+    return ops
+
+
+def meta_ops(r, n, nf=2, nh=2, budget=300):
+    """Histories centred on custom metadata: both storage forms (in the metadata store / next to the result
+    object) written over each other, re-memoized and forgotten calls, reads after every change."""
+    ops = []
+    live = set()
+    for f in range(1, nf + 1):
+        ops.append({"op": "Memoize", "f": f, "h": 1, "value": {"t": "bytes", "size": 60, "fill": f}, "ovr": 0})
+        live.add((f, 1))
+    for _ in range(n):
+        f, h, mk = r.randint(1, nf), r.randint(1, nh), r.randint(1, 2)
+        x = r.random()
+        if x < 0.40 and live:
+            f, h = r.choice(sorted(live))
+            ops.append({"op": "WriteMetadata", "f": f, "h": h, "mk": mk, "b": r.randint(1, 3), "wd": r.random() < 0.5})
+        elif x < 0.75:
+            if live and r.random() < 0.8:
+                f, h = r.choice(sorted(live))
+            ops.append({"op": "ReadMetadata", "f": f, "h": h, "mk": mk})
+        elif x < 0.85:
+            ops.append({"op": "Memoize", "f": f, "h": h, "value": {"t": r.choice(["bytes", "str", "none"]), "size": r.choice([60, 100]),
+                                                                   "fill": r.randint(0, 3)}, "ovr": 0})
+            live.add((f, h))
+        elif x < 0.92:
+            ops.append({"op": "ForgetCall", "f": f, "h": h})
+            live.discard((f, h))
+        elif x < 0.95:
+            ops.append({"op": "ForgetFunction", "f": f})
+            live = {k for k in live if k[0] != f}
+        else:
+            ops.append({"op": r.choice(["ListFunctions", "IsMemoized", "Reopen"]), "f": f, "h": h})
     return ops
 
 
@@ -139,7 +173,7 @@ def compare_with_model(trace, model, notes):
 
 def strip_for(module, trace):
     """Keep only the fields a monitor reads (smaller JSON, faster TLC)."""
-    keep_common = {"op", "exc", "f", "h", "keys", "ret", "mid", "v", "limit", "mk", "b", "ro"}
+    keep_common = {"op", "exc", "f", "h", "keys", "ret", "mid", "v", "limit", "mk", "b", "ro", "wd"}
     keep = {
         "TraceDict": keep_common,
         "TraceLru": keep_common | {"size", "reads", "cacheable", "proj"},
@@ -158,9 +192,28 @@ def strip_for(module, trace):
     return {"cfg": cfg, "ev": evs}
 
 
+def wd_meta_then_rememoized(trace, upto, e):
+    """the metadata key read by e was last written `with the data` and the call was memoized again since
+    (open finding C05-metadata-with-data-lost-on-rememoize)"""
+    if e.get("op") != "ReadMetadata":
+        return False
+    state = None
+    for p in trace["ev"][:upto]:
+        if p.get("exc"):
+            continue
+        if p["op"] == "WriteMetadata" and (p["f"], p["h"], p["mk"]) == (e["f"], e["h"], e["mk"]):
+            state = "wd" if p.get("wd") else "plain"
+        elif p["op"] == "Memoize" and (p["f"], p["h"]) == (e["f"], e["h"]) and state == "wd":
+            state = "wd+memoized"
+        elif (p["op"] == "ForgetCall" and (p["f"], p["h"]) == (e["f"], e["h"])) or \
+                (p["op"] == "ForgetFunction" and p["f"] == e["f"]) or p["op"] == "ForgetEverything":
+            state = None
+    return state == "wd+memoized"
+
+
 def event_facts(prop, trace, rej):
     e = trace["ev"][rej["prefix"]] if rej["prefix"] < len(trace["ev"]) else {}
-    return {"property": prop, "kind": trace["cfg"].get("kind"), "budget": trace["cfg"].get("budget", 0),
+    return {"wd_meta_then_rememoized": wd_meta_then_rememoized(trace, rej["prefix"], e),"property": prop, "kind": trace["cfg"].get("kind"), "budget": trace["cfg"].get("budget", 0),
             "sepmeta": bool(trace["cfg"].get("sepmeta")), "op": e.get("op"), "why": sorted(rej["why"]),
             "exc": e.get("exc", ""), "excmsg": e.get("excmsg", ""), "step": rej["prefix"] + 1}
 
@@ -217,7 +270,10 @@ def run(prop, tier):
             nrand = 0
         for i in range(nrand):
             c = dict(rand_cfgs[i % len(rand_cfgs)])
-            ops = random_ops(r, ln, budget=c["budget"] or 300, weak=(i % 3 != 0))
+            if prop == "C05" and i % 7 == 4:
+                ops = meta_ops(r, ln, budget=c["budget"] or 300)
+            else:
+                ops = random_ops(r, ln, budget=c["budget"] or 300, weak=(i % 3 != 0))
             jobs.append({"cfg": c, "ops": ops, "id": "rand"})
             models.append(None)
         if prop == "C19":
@@ -225,7 +281,7 @@ def run(prop, tier):
             for i in range(nro):
                 c = {"kind": "fs", "budget": [0, 300][i % 2], "sepmeta": (i % 4 >= 2), "reopen_ro": True,
                      "ro_via_config": (i % 8 >= 4)}
-                pre = random_ops(r, 14, weak=False)
+                pre = random_ops(r, 14, weak=False, wd_p=0)     # (the open C05 finding on with-data metadata is not C19's subject)
                 ops = random_ops(r, 25, weak=False)
                 jobs.append({"cfg": c, "pre": pre, "ops": ops, "id": "ro"})
                 models.append(None)
